@@ -21,12 +21,18 @@ RULE = (
     "hyp: frames of 0-40 rows whose first columns are key columns (small-range ints, float keys with NaN, strings, "
     "categoricals, nullable Int64; heavy duplicates) plus payload columns, 1-6 input partitions (from_pandas, chunksize, "
     "positional cuts with empty pieces). shuffle: on 1-2 columns or the index, npartitions_out 1-6, shuffle_method "
-    "tasks|disk, max_branch=2 (multi-stage as soon as >=3 partitions in and out), ignore_index; oracle: multiset of rows "
+    "tasks|disk, max_branch=2 (multi-stage as soon as >=3 partitions in and out), ignore_index, in ~30 % followed by a selection "
+    "of 1-6 output partitions (.partitions[[...]], repeats allowed; half of them forced into the last stage of a multi-stage shuffle: tasks, max_branch=2, >= 3 positions) that must hold the rows of those partitions of the full "
+    "shuffle; oracle: multiset of rows "
     "preserved and every key value (NA = one key class) occurs in exactly one output partition (partitions computed "
     "individually). sort: sort_values(by 1-2 columns, ascending (list), na_position, npartitions) and set_index(col, "
     "npartitions | divisions | sorted=True on a sorted column, drop); oracle: the sequence of sort keys equals pandas' "
     "(stable sort of the whole frame) and the multiset of rows equals pandas (order within equal keys is free), judged on "
-    "compute() AND on the partitions taken in order (to_delayed). "
+    "compute() AND on the partitions taken in order (to_delayed); in ~30-40 % of the sort cases the sorted collection is instead "
+    "consumed by head(n, npartitions=-1 | default) / tail(n) / nlargest|nsmallest(n, int column): key sequence == pandas on the "
+    "sorted frame, rows off the boundary key equal as a multiset, rows with the boundary key are input rows with that key "
+    "(a default head/tail may return fewer rows - first/last partition only, as documented - and is then compared with the "
+    "corresponding prefix/suffix). "
     "dedup: drop_duplicates(subset, keep first|last, split_out, ignore_index), Series.unique, Series/DataFrame.nunique "
     "(dropna); oracle: pandas as multisets (with a subset only the subset columns are determined; every result row must "
     "be an input row; with split_out=1, i.e. no shuffle, the kept ROWS must equal pandas' first/last occurrence). Non-trivial: >=3 input and >=3 output partitions with duplicate keys (shuffle: multi-stage), "
@@ -36,6 +42,8 @@ ASSUMPTIONS = [
     "row order inside a hash-shuffled partition, among equal sort keys and of drop_duplicates/unique output is free",
     "set_index keys contain no missing values (dask: nulls in the index are not supported)",
     "drop_duplicates(keep=False) is documented as not implemented and not exercised",
+    "head(n) with the default npartitions=1 and tail(n) are documented to look at the first/last partition only: fewer than n rows are accepted there (counted as short-head-or-tail-documented) if they are the right prefix/suffix; head(n, npartitions=-1) must return min(n, len) rows",
+    "which partition a key is hashed to is a deterministic function of the key and npartitions: the i-th selected partition of shuffle(...).partitions[sel] is compared with partition sel[i] of the same shuffle computed in full",
 ]
 TECHNIQUE = "differential testing against pandas with Hypothesis-generated frames/partitionings; per-partition key-set inspection for shuffle"
 
@@ -80,6 +88,17 @@ def check_shuffle(spec):
     got = pd.concat(parts) if parts else pdf.iloc[:0]
     _same_multiset(got, pdf, "shuffle", sig, with_index=not op["ignore_index"])
     ensure(list(got.columns) == list(pdf.columns), f"columns changed: {list(got.columns)}", "columns-mismatch", **sig)
+    if op.get("select") and parts:
+        # a selection of output partitions (``.partitions[[...]]``: the shuffle layer then builds only those, a staged
+        # shuffle through its ``_filter`` path) holds exactly the rows of those partitions of the full shuffle
+        sel = [i % len(parts) for i in op["select"]]
+        mb = kw.get("max_branch") or 32
+        ssig = dict(sig, select=True, staged=min(ddf.npartitions, len(sel)) > mb)
+        with impl("shuffle.partitions", **ssig), C.quiet(), _cfg(op["method"]):
+            sparts = C.partitions(out.partitions[sel])
+        ensure(len(sparts) == len(sel), f"shuffle(...).partitions[{sel}] has {len(sparts)} partitions", "partition-count", **ssig)
+        for j, i in enumerate(sel):
+            _same_multiset(sparts[j], parts[i], f"shuffle(on={on}, max_branch={kw.get('max_branch')}).partitions[{sel}] of {len(parts)}: selected partition {j} vs partition {i} of the full result", ssig, with_index=not op["ignore_index"])
     if on == "index" and op["ignore_index"]:
         return  # the keys (index values) were dropped on request: nothing left to locate
     where = {}
@@ -115,6 +134,10 @@ def cls_common(spec):
         yield "key-" + c["kind"] + ("-na" if c.get("nan") else "")
     if spec["partition"]["how"] == "cuts" and len(set(spec["partition"]["cuts"])) < len(spec["partition"]["cuts"]):
         yield "empty-input-partition"
+    if op.get("then"):
+        yield "then-" + op["then"]["op"]
+    if op.get("select"):
+        yield "select-partitions" + ("-staged" if op.get("max_branch") and op["method"] == "tasks" and len(op["select"]) > op["max_branch"] else "")
 
 
 @st.composite
@@ -148,6 +171,14 @@ def shuffle_case(draw):
         "max_branch": draw(st.sampled_from([2, 2, 3, None])),
         "ignore_index": draw(st.sampled_from([False, False, True])),
     }
+    if draw(st.sampled_from(range(10))) < 3:
+        # additionally select some output partitions (positions are taken modulo the number of output partitions)
+        spec["op"]["select"] = draw(st.lists(st.integers(0, 5), min_size=1, max_size=6, unique=draw(st.booleans())))
+        if draw(st.booleans()):
+            # stratum: the selection is served by the LAST stage of a multi-stage task shuffle (as many partitions out as
+            # in, more selected positions and input partitions than max_branch)
+            spec["op"].update(method="tasks", max_branch=2, npartitions=None)
+            spec["op"]["select"] = (spec["op"]["select"] + [3, 1, 4])[: max(3, len(spec["op"]["select"]))]
     return spec
 
 
@@ -183,6 +214,61 @@ def _sort_lowering(out):
     return "shuffle" if any("Shuffle" in n for n in names) else "blockwise"
 
 
+def _check_then(full, out, then, keyof, what, sig, with_index=True):
+    """``sorted_collection.head(n) / .tail(n) / .nlargest(n, col)`` against the same call on ``full``, the frame sorted
+    by pandas.  The sequence of (sort or selection) keys is determined; WHICH of several rows carrying the boundary key
+    are returned is free (order among equal keys), so those only have to be rows of ``full`` with that key."""
+    n, kind = then["n"], then["op"]
+    tsig = dict(sig, then=kind, head_or_tail=kind in ("head", "tail"))
+    with impl("sorted." + kind, **tsig), C.quiet(), _cfg(sig["method"]):
+        if kind == "head":
+            got = out.head(n, npartitions=-1) if then.get("all_partitions", True) else out.head(n)
+        elif kind == "tail":
+            got = out.tail(n)
+        else:
+            got = F.compute(getattr(out, kind)(n, then["col"]))
+    at_end = kind != "tail"  # the boundary key is the last one of the result (tail: the first one)
+    if kind in ("nlargest", "nsmallest"):
+        with C.quiet():
+            want = getattr(full, kind)(n, then["col"])
+        keyof = lambda df: df[[then["col"]]]  # noqa: E731 - the selection key takes the place of the sort key
+    else:
+        want = full.head(n) if at_end else full.tail(n)
+        if not (kind == "head" and then.get("all_partitions", True)) and len(got) < len(want):
+            # documented: head(n) looks at the first partition, tail(n) at the last one only, and return what is there
+            count("short-head-or-tail-documented")
+            want = want.iloc[: len(got)] if at_end else want.iloc[len(want) - len(got):]
+    what = f"{what}.{kind}({n}{', ' + repr(then['col']) if 'col' in then else ''})"
+    ensure(len(got) == len(want), f"{what}: {len(got)} rows, pandas {len(want)}", "row-count", **tsig)
+    ensure(list(got.columns) == list(want.columns), f"{what}: columns {list(got.columns)}", "columns-mismatch", **tsig)
+    F.assert_eq(keyof(got).reset_index(drop=True), keyof(want).reset_index(drop=True), what=f"{what} key sequence", sig=dict(tsig, clause="order"))
+    if not len(want):
+        return
+
+    def keys(df):
+        return [tuple(_keyrepr(v) for v in t) for t in keyof(df).itertuples(index=False, name=None)]
+
+    wkeys, gkeys, fkeys = keys(want), keys(got), keys(full)
+    boundary = wkeys[-1] if at_end else wkeys[0]
+    _same_multiset(got[[k != boundary for k in gkeys]], want[[k != boundary for k in wkeys]], f"{what} rows off the boundary key", tsig, with_index=with_index)
+    pool = C.row_multiset(full[[k == boundary for k in fkeys]], with_index)
+    for row, cnt in C.row_multiset(got[[k == boundary for k in gkeys]], with_index).items():
+        ensure(cnt <= pool.get(row, 0), f"{what}: row {row} (x{cnt}) with the boundary key {boundary} is not a row of the input", "foreign-row", **tsig)
+
+
+def _draw_then(draw, spec, exclude=()):
+    kind = draw(st.sampled_from(["head", "tail", "nlargest", "head", "tail", "nsmallest"]))
+    then = {"op": kind, "n": draw(st.sampled_from([1, 2, 3, 5, 8]))}
+    if kind == "head":
+        then["all_partitions"] = draw(st.sampled_from([True, True, False]))
+    if kind in ("nlargest", "nsmallest"):
+        cols = [c["name"] for c in spec["columns"] if c["kind"] in ("int", "key") and c["name"] not in exclude]
+        if not cols:
+            return {"op": "head", "n": then["n"], "all_partitions": True}
+        then["col"] = draw(st.sampled_from(cols))
+    return then
+
+
 def _check_sort(spec):
     op = spec["op"]
     with C.quiet():
@@ -210,6 +296,9 @@ def _check_sort(spec):
         with impl("sort_values", **sig), C.quiet(), _cfg(sig["method"]):
             out = ddf.sort_values(by, ascending=asc if len(by) > 1 else asc[0], na_position=nap, npartitions=op.get("npartitions"), shuffle_method=sig["method"])
             sig["lowering"] = _sort_lowering(out)
+        if op.get("then"):
+            _check_then(want, out, op["then"], lambda df: df[by], f"sort_values(by={by}, ascending={asc}, na_position={nap})", dict(sig, na_in_keys=bool(pdf[by].isna().any().any())))
+            return
         with impl("sort_values", **sig), C.quiet(), _cfg(sig["method"]):
             got = F.compute(out)
             parts = C.partitions(out)
@@ -223,6 +312,7 @@ def _check_sort(spec):
         return
     col, mode = op["col"], op["mode"]
     sig["mode"] = mode
+    sig["drop"] = bool(op["drop"])
     with C.quiet():
         want = pdf.set_index(col, drop=op["drop"])
     kw = dict(drop=op["drop"])
@@ -241,6 +331,11 @@ def _check_sort(spec):
     # input-class flag: the collection reports more partitions than its division vector describes (C41's clause; here
     # it only labels the crash that follows from it)
     sig["npartitions_ne_divisions"] = out.npartitions != len(divs) - 1
+    if op.get("then"):
+        with C.quiet():
+            full = want.sort_index(kind="stable")
+        _check_then(full, out, op["then"], lambda df: df.index.to_frame(index=False, name="__key__"), f"set_index({col}, {mode})", sig)
+        return
     with impl("set_index", **sig), C.quiet(), _cfg(sig["method"]):
         got = F.compute(out)
         pgot = C.concat_parts(C.partitions(out), got.iloc[:0])
@@ -271,6 +366,9 @@ def sort_case(draw):
             "npartitions": draw(st.sampled_from([None, None, 1, 2, 4])),
             "method": method,
         }
+        if draw(st.sampled_from(range(10))) < 3:
+            # the first/last rows of the sorted collection instead of all of it (head/tail/nlargest have their own lowering)
+            spec["op"]["then"] = _draw_then(draw, spec)
         return spec
     # set_index: NaN-free key columns
     req_kinds = ("key", "int", "str", "datetime")
@@ -283,6 +381,8 @@ def sort_case(draw):
         op["npartitions"] = draw(st.sampled_from([None, None, 1, 2, 3, 5]))
     if mode == "divisions":
         op.update(pos=draw(st.lists(st.integers(0, max(spec["nrows"] - 1, 0)), max_size=4)), lo=draw(st.sampled_from([0, 0, 2])), hi=draw(st.sampled_from([0, 0, 2])))
+    if draw(st.sampled_from(range(10))) < 3:
+        op["then"] = _draw_then(draw, spec, exclude=("k0",))  # k0 becomes the index (drop=True): not a column to select by
     spec["op"] = op
     return spec
 
